@@ -70,10 +70,13 @@ def strip_comments(src):
     return "".join(out)
 
 
-def gate_grep():
-    """Forbidden constructs anywhere in the development (comments stripped).
+def gate_grep(only=None):
+    """Forbidden constructs in the development (comments stripped); `only` restricts the scan to
+    the given files (relative to coq/), i.e. the transitive dependencies of one property, so that
+    another property's work in progress cannot fail this one.
     `Variable`/`Hypothesis` are allowed only inside a Section."""
     hits = []
+    only = None if only is None else {os.path.normpath(x) for x in only}
     for d, _, fs in os.walk(COQ):
         if "/work" in d:
             continue
@@ -81,6 +84,8 @@ def gate_grep():
             if not f.endswith(".v"):
                 continue
             p = os.path.join(d, f)
+            if only is not None and os.path.normpath(os.path.relpath(p, COQ)) not in only:
+                continue
             src = strip_comments(open(p).read())
             depth = 0
             for n, line in enumerate(src.split("\n"), 1):
@@ -411,8 +416,8 @@ class Check:
 
     # ---- stage 1: proofs
     def proofs(self):
-        hits = gate_grep()
         b = coq_build(self.prop)
+        hits = gate_grep(only=b["files"])
         self.coq = b
         cov = self.coverage
         cov["obligations"] = b["obligations"]
